@@ -28,7 +28,7 @@ ASSUMPTIONS = [
     'A-numpy: pointwise ufuncs, mask assignment a[m] = c, np.less / np.fabs / np.isnan / zeros_like as documented',
     'scipy.stats norm / t: sf(x) = 1 - cdf(x), cdf strictly increasing and continuous, symmetric laws (sf(-x) = 1 - sf(x)), ppf the inverse of cdf, '
     'sf(NaN) = NaN, sf(+inf) = 0 -- axioms instantiated at the ground terms of each VC, never proved',
-    'Dataset.__sub__ is used through its contract (verified in C08: value v1 - v2, error sqrt(e1^2 + e2^2)); check_bins is not modelled (bins of the compared datasets agree)',
+    'Dataset.__sub__ is used through its contract (value v1 - v2, error sqrt(e1^2 + e2^2) for all extended reals, NaN and infinite errors included: verified here, unit dataset_sub); check_bins is not modelled (bins of the compared datasets agree)',
     'rank-1 arrays stand for every shape (the functions are pointwise); lists of compared datasets of length 1 and 2',
     'A-log: LOGGER calls dropped',
 ]
@@ -199,7 +199,7 @@ def lemmas():
 
 
 def units(tier):
-    return ['student_test_array', 'student_test_0d', 'pvalue', 'threshold', 'test_alpha', 'bool_1', 'bool_2', 'oracles_1', 'oracles_2', 'test_pvalue_1', 'test_pvalue_2', 'lemmas', 'native']
+    return ['dataset_sub', 'student_test_array', 'student_test_0d', 'pvalue', 'threshold', 'test_alpha', 'bool_1', 'bool_2', 'oracles_1', 'oracles_2', 'test_pvalue_1', 'test_pvalue_2', 'lemmas', 'native']
 
 
 def _replay_native(name, inp):
@@ -215,6 +215,9 @@ def run_unit(unit, tier, seed, known):
     import warnings
     logging.disable(logging.CRITICAL)
     warnings.filterwarnings('ignore')
+    if unit == 'dataset_sub':
+        from . import C08
+        return {'functions': [C08.verify_sub_full(tier, ID, _replay_native)]}
     if unit == 'native':
         return {'bounded': [snat.student_sweep(tier, seed)]}
     if unit == 'lemmas':
